@@ -37,7 +37,8 @@ theorem dim_roundtrip (d : WDim) (h : WfDim d) (rest : Bytes) : dim (encDim d ++
     many_flatMap attr encAttr d.attrs rest (fun a ha r => attr_roundtrip a (h5 a ha) r), h3'']
 
 def WfStruct (s : WStruct) : Prop :=
-  ((s.version = 1 ∧ ∃ n, s.nextId = some n ∧ n < 2 ^ 64) ∨ (s.version = 0 ∧ s.nextId = none)) ∧
+  ((s.version = 1 ∧ ∃ n, s.nextId = some n ∧ n < 2 ^ 64) ∨
+    (s.version = 0 ∧ s.nextId = none ∧ ∀ d ∈ s.dims, ∀ a ∈ d.attrs, a.id + 1 < 2 ^ 64)) ∧
     s.dims.length < 2 ^ 64 ∧ ∀ d ∈ s.dims, WfDim d
 
 theorem struct_roundtrip (s : WStruct) (h : WfStruct s) (rest : Bytes) :
@@ -47,15 +48,22 @@ theorem struct_roundtrip (s : WStruct) (h : WfStruct s) (rest : Bytes) :
   obtain ⟨version, nextId, dims⟩ := s
   simp only at hv h2 h3 hm
   unfold struct_ encStruct
-  rcases hv with ⟨hv, n, hn, hlt⟩ | ⟨hv, hn⟩
+  rcases hv with ⟨hv, n, hn, hlt⟩ | ⟨hv, hn, hids⟩
   · subst hv; subst hn
     have h1 : (1 : Nat) < 2 ^ 64 := by omega
     simp only [List.append_assoc, leb_wleb _ h1, show ¬ (1 > 1) by omega, if_false, if_true,
-      leb_wleb _ hlt, Option.map_some, leb_wleb _ h2, hm]
+      leb_wleb _ hlt, Option.map_some, leb_wleb _ h2, hm, show ¬ ((1 : Nat) = 0) by omega, false_and]
   · subst hv; subst hn
     have h0 : (0 : Nat) < 2 ^ 64 := by omega
+    have hany : dims.any (fun d => d.attrs.any (fun a => decide (2 ^ 64 ≤ a.id + 1))) = false := by
+      rw [List.any_eq_false]
+      intro d hd
+      rw [Bool.not_eq_true, List.any_eq_false]
+      intro a ha
+      have := hids d hd a ha
+      simp only [decide_eq_true_eq]; omega
     simp only [List.append_assoc, leb_wleb _ h0, show ¬ (0 > 1) by omega, if_false,
-      show ¬ ((0 : Nat) = 1) by omega, List.nil_append, leb_wleb _ h2, hm]
+      show ¬ ((0 : Nat) = 1) by omega, List.nil_append, leb_wleb _ h2, hm, hany, Bool.false_eq_true, and_false]
 
 /-- a key leaf pair of the right sizes: second leaf present iff hybridized -/
 def WfKey (la lb : Nat) (k : WKey) : Prop :=
